@@ -249,10 +249,25 @@ def observe(fn, nonstd=False):
         return "crash:" + type(e).__name__, None
 
 
+_CASE_FILE = {}
+
+
+def write_case_file(text):
+    """Rewrite this process's scratch document in place (an O_TRUNC re-open costs 2 ms on this file system)."""
+    pid = os.getpid()
+    if pid not in _CASE_FILE:
+        path = os.path.join(scratch_dir(), "c04-case.json")
+        _CASE_FILE.clear()
+        _CASE_FILE[pid] = (path, os.open(path, os.O_RDWR | os.O_CREAT | os.O_TRUNC, 0o600))
+    path, fd = _CASE_FILE[pid]
+    raw = text.encode("utf-8")
+    os.pwrite(fd, raw, 0)
+    os.ftruncate(fd, len(raw))
+    return path
+
+
 def aoef_load(doc, nonstd=False):
-    path = os.path.join(scratch_dir(), "c04-case.json")
-    with open(path, "w") as f:
-        f.write(json.dumps(doc))
+    path = write_case_file(json.dumps(doc))
     return observe(lambda: io.load(path), nonstd)
 
 
